@@ -154,6 +154,10 @@ def judge_owner(prog, fn, stmt, owner):
     if owner is None:
         return 'undecided', 'owner expression is not a plain variable'
     v = prog.vars[owner]
+    if v.get('tls') and v['kind'] in ('static_local', 'global', 'static_member'):
+        return 'violation', ('owner %s is thread_local: every thread has its own owner, so a later call made from another thread does not '
+                             'release the control object created here (TBB then applies the minimum of the live limits), and the limit '
+                             'ends when the calling thread exits' % v['name'])
     if v['kind'] == 'local':
         for r in ex.returns_of(fn):
             if r.c and ex.var_of(r.c[0]) == owner:
@@ -281,6 +285,112 @@ def r20b(rep, prog):
     return n_mains
 
 
+NONZERO_CALLS = ('hardware_concurrency', 'default_concurrency', 'max_concurrency')
+
+
+def _nonzero_value(n):
+    """is the expression non-zero for every run?  True / False / None (unknown)"""
+    s = n.strip_all()
+    if s.cv is not None:
+        return s.cv != 0
+    if s.k in ('CallExpr', 'CXXMemberCallExpr') and s.callee:
+        if s.callee['name'] in NONZERO_CALLS:
+            return True
+        if s.callee['name'] == 'max':
+            vals = [_nonzero_value(a) for a in s.args()]
+            if any(v is True for v in vals):
+                return True
+    if s.k == 'ConditionalOperator':
+        vals = [_nonzero_value(s.c[1]), _nonzero_value(s.c[2])]
+        if all(v is True for v in vals):
+            return True
+    return None
+
+
+def knob_zero(rep, prog, main, rule):
+    """R11d: --cores=0 (the documented "use all cores") never reaches the knob as 0."""
+    from .c10 import guards_formula, implies
+    cfg = main.cfg
+    n = 0
+    for kcall in [x for x in main.walk() if ex.is_call(x, common.KNOB)]:
+        n += 1
+        what = 'the value 0 of --cores never reaches set_global_tbb_concurrency (it is translated to a positive thread count first)'
+        arg = kcall.args()[0] if kcall.args() else None
+        if arg is None:
+            rep.undecided(rule, kcall, main, what, 'knob called without argument')
+            continue
+        xv = ex.var_of(arg)
+        direct = common.option_atom(arg) == ('opt', 'cores')
+        if xv is None and not direct:
+            nz = _nonzero_value(arg)
+            if nz is True:
+                rep.ok(rule, kcall, main, what, 'argument `%s` is a non-zero value' % arg.text(30))
+            else:
+                rep.undecided(rule, kcall, main, what, 'argument `%s` is neither a variable nor the option value' % arg.text(30))
+            continue
+
+        def is_x(e):
+            return (xv is not None and ex.var_of(e) == xv) or (direct and common.option_atom(e) == ('opt', 'cores'))
+
+        def zatom(leaf):
+            s2 = leaf.strip_all()
+            if s2.k == 'BinaryOperator' and s2.op in ('==', '!=', '>', '<', '>=', '<='):
+                l, r = s2.c[0], s2.c[1]
+                op = s2.op
+                if is_x(r):
+                    l, r = r, l
+                    op = {'>': '<', '<': '>', '>=': '<=', '<=': '>='}.get(op, op)
+                if is_x(l) and r.strip_all().cv is not None:
+                    c = r.strip_all().cv
+                    f0 = ex.f_atom('zero')
+                    # over the non-negative values the option can meaningfully take
+                    if (op, c) in (('==', 0), ('<', 1), ('<=', 0)):
+                        return f0
+                    if (op, c) in (('!=', 0), ('>', 0), ('>=', 1)):
+                        return ex.f_not(f0)
+                return None
+            if s2.k == 'UnaryOperator' and s2.op == '!' and is_x(s2.c[0]):
+                return ex.f_atom('zero')
+            if is_x(s2):
+                return ex.f_not(ex.f_atom('zero'))
+            a = common.option_atom(leaf)
+            if a is not None:
+                return ex.f_atom(a)
+            return None
+        gk = guards_formula(cfg, kcall, zatom)
+        if 'zero' in ex.f_atoms(gk) and implies(gk, ex.f_not(ex.f_atom('zero'))):
+            rep.ok(rule, kcall, main, what, 'the knob call is guarded by a non-zero test of the value')
+            continue
+        fixes, unknown = [], []
+        if xv is not None:
+            for (d, rhs) in ex.assignments_to(main, xv):
+                if rhs is None or common.option_atom(rhs) == ('opt', 'cores'):
+                    continue
+                if not cfg.reaches(d, kcall) or cfg.reaches(kcall, d):
+                    continue
+                gd = guards_formula(cfg, d, zatom)
+                if 'zero' not in ex.f_atoms(gd):
+                    continue
+                # whenever the value is 0 and the knob call will be reached, the replacement executes
+                if not implies(ex.f_and(ex.f_atom('zero'), gk), gd):
+                    continue
+                nz = _nonzero_value(rhs)
+                if nz is True:
+                    fixes.append(d)
+                elif nz is None:
+                    unknown.append(d)
+        if fixes:
+            rep.ok(rule, kcall, main, what, 'replaced at line %d under `== 0` by a positive thread count' % fixes[0].line)
+        elif unknown:
+            rep.undecided(rule, kcall, main, what, 'replacement `%s` (line %d) is not a recognised positive value' % (unknown[0].text(40), unknown[0].line))
+        else:
+            rep.violation(rule, kcall, main, what,
+                          '--cores=0 ("use all cores") is handed to the knob unchanged: tbb::global_control rejects '
+                          'max_allowed_parallelism 0 (release assertion, abort), so a valid file does not give exit status 0 '
+                          'for this option combination', key='%s|%s|zero' % (rule, os.path.basename(prog.tu)))
+    return n
+
+
 def _atom(leaf):
     a = common.option_atom(leaf)
     if a is not None:
@@ -292,6 +402,9 @@ def _atom(leaf):
             a = common.option_atom(d)
             if a is not None:
                 return ex.f_atom(a)
+            # a local boolean computed once from option values: use its defining formula
+            if d.strip_all().k in ('BinaryOperator', 'UnaryOperator', 'ParenExpr') and d is not leaf:
+                return ex.formula(d, _atom)
     return None
 
 
